@@ -18,6 +18,21 @@ def Sound (sqrt : α → α) (radius : α) (edges : List (Edge α)) (pos : α ×
     OnSeg p1.1 p1.2 p2.1 p2.2 s.p.1 s.p.2 ∧ 0 ≤ d ∧ d * d = d2 pos.1 pos.2 s.p.1 s.p.2 ∧ d < radius ∧
     (eg.curv = absCurv sqrt eg.geom → ∃ len, eg.curv[eg.geom.length - 1]? = some len ∧ s.d0 + s.d1 = len)
 
+/-- `__distToNode(track, coord, i, 1)` reads `track[i + 1]`: when it returns, the geometry has at least two vertices
+(so that the segment the projection reports exists — also when every segment of the geometry is skipped and the
+projection answers with the first vertex, index 0) -/
+theorem distToNode_one_geom (sqrt : α → α) (e : Edge α) (coord : α × α) (i : Nat) (b : α)
+    (h : distToNode sqrt e coord i 1 = some b) : 2 ≤ e.geom.length := by
+  unfold distToNode at h
+  split at h
+  · simp only [Nat.succ_ne_zero, ↓reduceIte, OfNat.ofNat_ne_zero, one_ne_zero] at h
+    split at h
+    · rename_i hg
+      have := (List.getElem?_eq_some_iff.mp hg).1
+      omega
+    · cases h
+  · cases h
+
 theorem candLoop_sound {sqrt : α → α} (hs : SqrtSpec sqrt) (eps radius : α) (edges : List (Edge α)) (pos : α × α)
     (E : List Nat) : ∀ (acc res : List (State α)), (∀ s ∈ acc, Sound sqrt radius edges pos s) →
       candLoop sqrt eps radius edges pos E acc = .ok res → ∀ s ∈ res, Sound sqrt radius edges pos s := by
@@ -57,8 +72,8 @@ theorem candLoop_sound {sqrt : α → α} (hs : SqrtSpec sqrt) (eps radius : α)
               · simp only [List.mem_singleton] at hm
                 subst hm
                 have hpoly := (TV.C20.projOnTrack_spec sqrt eps eg.geom pos.1 pos.2 d px py i).mp hp
-                obtain ⟨⟨p1, p2, g1, g2, _, hon⟩, d0, dd, _⟩ :=
-                  TV.C20.proj_polyline_min_partial hs eps eg.geom pos.1 pos.2 d px py i hpoly
+                obtain ⟨d0, dd, p1, g1, hseg, _⟩ := TV.C20.proj_polyline_on hs eps eg.geom pos.1 pos.2 d px py i hpoly
+                obtain ⟨p2, g2, hon⟩ := hseg (distToNode_one_geom sqrt eg (px, py) i b hb)
                 exact ⟨elem, eg, i, p1, p2, d, rfl, he, g1, g2, hon, d0, dd, hlt,
                   fun hc => distToNode_sum hs eg (px, py) i a b p1 p2 g1 g2 hon ha hb hc⟩
         · exact ih _ res hacc h
